@@ -46,38 +46,47 @@ class DensRef:
         return self._D[key]
 
     def evaluate(self, expr):
-        """expr: {(p, q): coefficient} -> (value[N], scale[N])."""
+        """expr: {(p, q): (coefficient, absolute weight)} -> (value[N], scale[N]).
+
+        The absolute weight is the sum of |coefficients| with which the symbol entered the expression BEFORE like terms were
+        merged: a symbol whose contributions cancel (net coefficient 0) still contributes its rounding to any evaluation of
+        the defining expression, so it must contribute to the scale."""
         val = np.zeros(len(self.pts))
         sc = np.zeros(len(self.pts))
-        for (p, q), c in expr.items():
-            if c == 0:
+        for (p, q), (c, a) in expr.items():
+            if c == 0 and a == 0:
                 continue
             v, s = self.D(p, q)
             val = val + c * v
-            sc = sc + abs(c) * s
+            sc = sc + a * s
         return val, sc
 
 
 # ----- expressions in the symbols D(p,q) -------------------------------------------------------
 def sym(p, q, c=1.0):
-    return {(tuple(p), tuple(q)): c}
+    return {(tuple(p), tuple(q)): (c, abs(c))}
+
+
+def _acc(out, k, c, a):
+    c0, a0 = out.get(k, (0.0, 0.0))
+    out[k] = (c0 + c, a0 + a)
 
 
 def lin(*terms):
     """lin((c1, expr1), (c2, expr2), ...)"""
     out = {}
     for c, e in terms:
-        for k, v in e.items():
-            out[k] = out.get(k, 0.0) + c * v
+        for k, (v, a) in e.items():
+            _acc(out, k, c * v, abs(c) * a)
     return out
 
 
 def ddr(expr, i):
     """Total derivative along axis i at r = r': (d_i + d'_i) D(p,q) = D(p+e_i,q) + D(p,q+e_i)."""
     out = {}
-    for (p, q), c in expr.items():
+    for (p, q), (c, a) in expr.items():
         for k in ((add(p, E[i]), q), (p, add(q, E[i]))):
-            out[k] = out.get(k, 0.0) + c
+            _acc(out, k, c, a)
     return out
 
 
@@ -93,7 +102,8 @@ def rho_deriv(order):
         for b in range(L[1] + 1):
             for c in range(L[2] + 1):
                 k = ((a, b, c), (L[0] - a, L[1] - b, L[2] - c))
-                out[k] = out.get(k, 0.0) + comb(L[0], a) * comb(L[1], b) * comb(L[2], c)
+                w = comb(L[0], a) * comb(L[1], b) * comb(L[2], c)
+                _acc(out, k, float(w), float(w))
     return out
 
 
